@@ -12,6 +12,7 @@ EXPLANATION = ("C20: every allocation result is NULL-tested before it is derefer
 EXPLANATION += ' Round 3: a local allocation or delivered object is released or handed on along every path (R6); an owned field is released only after its replacement was allocated (R14).'
 EXPLANATION += " Round 5: a constructor that hands its half-built object to the reaper has stored every field the reap function dereferences (R18)."
 EXPLANATION += " A failed step does not leave NULL in a field that other calls on the object use (R19); a receive buffer cut down for one datagram is restored on every way out (R20)."
+EXPLANATION += " Round 6: a counter of table entries follows the table (R23); what the caller releases on failure the failing callee has not released (R24); an error code kept in a local is looked at before the local is used again (R25); the NULL-field rule for teardown slots also covers the protocols' pipe slots (R10); nni_msg_pull_up's discarded insert is no longer exempt (R2)."
 
 ALLOC = ("nni_alloc", "nni_zalloc", "nng_alloc", "nng_zalloc", "nni_strdup", "nng_strdup", "nni_strndup")
 # callees that dereference their pointer arguments (argument indexes)
